@@ -71,6 +71,10 @@ pub fn plan_for(property: &str) -> Option<(&'static str, Vec<PlanItem>)> {
                 PlanItem { family: "emitted", run: c11_emitted, quick: 3000, thorough: 60000, determinism_check: false },
             ],
         ),
+        "C05" => (
+            "C05",
+            vec![PlanItem { family: "tx_window", run: c05_tx, quick: 4000, thorough: 120000, determinism_check: true }],
+        ),
         "C16" => (
             "C16",
             vec![PlanItem { family: "direct_rtte", run: crate::fam::direct::direct_rtte, quick: 4000, thorough: 40000, determinism_check: false }],
@@ -260,6 +264,32 @@ fn c11_emitted(ctx: &CaseCtx) -> CaseReport {
     let addrs = duplex_addrs(&cfg);
     mon::c11::check_emitted(&mut rep, &run.events, addrs[0], addrs[1]);
     rep.nontrivial = rep.counters.get("c11_emitted_datagrams_checked") > 3;
+    let end = run.end_time;
+    finish(&mut rep, ctx, &view, run.events, end);
+    rep
+}
+
+fn tx_common(ctx: &CaseCtx, rep: &mut CaseReport, focus: crate::fam::txscript::TxFocus, max_total: usize) -> (crate::fam::txscript::TxCfg, crate::sim::CaseRun<crate::fam::txscript::TxOutcome>) {
+    let cfg = crate::fam::txscript::generate(ctx.case_seed, focus, max_total);
+    rep.desc = cfg.describe();
+    let run = crate::fam::txscript::run_tx(ctx.case_seed, &cfg);
+    if let Some(p) = &run.panicked {
+        rep.inconclusive.push(format!("panic during the run: {p}"));
+    }
+    (cfg, run)
+}
+
+fn c05_tx(ctx: &CaseCtx) -> CaseReport {
+    let mut rep = CaseReport::new(ctx.family, ctx.index, ctx.case_seed);
+    // both the window focus and the silence sub-family of the retransmit focus
+    let focus = if ctx.index % 4 == 3 { crate::fam::txscript::TxFocus::Retransmit } else { crate::fam::txscript::TxFocus::Window };
+    let (cfg, run) = tx_common(ctx, &mut rep, focus, if ctx.tier == Tier::Quick { 150_000 } else { 600_000 });
+    let view = WireView::build(&run.events);
+    if let Some(m) = mon::sender::build(&run.events, &view, cfg.real_initiates, cfg.sock.min_payload(!cfg.ipv6)) {
+        mon::c05::check(&mut rep, &m, &run.events);
+    }
+    rep.counters.add("datagrams", view.pkts.len() as u64);
+    rep.nontrivial = rep.counters.get("c05_first_transmissions_checked") > 2;
     let end = run.end_time;
     finish(&mut rep, ctx, &view, run.events, end);
     rep
